@@ -46,8 +46,10 @@ CHECKS = {
                  'str(URL(str(u))) = str(u) with identical components for inputs with no authority or a plain ASCII host name, and '
                  '(C03_fixed_point_userinfo_port) for every accepted input whose authority is [user[:password]@]name[:port] with a plain '
                  'ASCII host name: same string, scheme, raw user, raw password, raw host, port (a dropped default port is the same '
-                 'port), path, query, fragment; F30 as an explicit hypothesis. PARTIAL: '
-                 'IDNA/IP hosts and URLs reached through modifiers are checked on the implementation by re-parsing the '
+                 'port), path, query, fragment; F30 as an explicit hypothesis; the same for every URL value satisfying the canonical-value '
+                 'invariant, which with_port/with_user/with_password/with_fragment/with_query(str) preserve, hence for every chain of '
+                 'these modifiers from such an input (C03_modifier_chains_fixed_point). PARTIAL: '
+                 'IDNA/IP hosts and URLs reached through the other modifiers are checked on the implementation by re-parsing the '
                  'string form of every generated URL (two-stage programs); known findings F14 F15 F17 F30 excluded.'),
         "design_ref": "DESIGN.md section 7 C03",
     },
